@@ -145,10 +145,16 @@ def correspondence(ctx):
     entries = []
     for h, t in cases:
         frac = rng.random() < 0.08
+        style = ul.rand_style(rng, 0.6)
         try:
-            obs = ul.run_tree(h, t, frac)
+            obs = ul.run_tree(h, t, frac, style=style)
         except ul.CaseInvalid:
             res.count("skipped:unit-string-not-parsed-as-intended")
+            continue
+        if obs.get("exc") == "crash":
+            res.evaluations += 1
+            res.disagreements.append({"name": "the implementation raised {} where the model returns".format(obs["what"]),
+                                      "kind": "tree", "case": {"history": h, "tree": t, "frac": frac}})
             continue
         if not obs["exact"]:
             res.count("skipped:inexact-float-exponent")
@@ -167,7 +173,35 @@ def correspondence(ctx):
 
         def mk(enc, h=h, t=t, obs=obs, shown=shown, frac=frac):
             return "({}, {}, {}, {}, {})".format(enc.history(h), enc.tree(t), enc.obs(obs), enc.opt_umap(shown), coq_bool(frac))
-        entries.append((mk, {"kind": "tree", "case": {"history": h, "tree": t, "frac": frac}}))
+        entries.append((mk, {"kind": "tree", "case": {"history": h, "tree": t, "frac": frac, "style": style}}))
+        for k_, v_ in (style or {"plain": 1}).items():
+            res.count("style:{}={}".format(k_, v_))
+    # read the result, change an operand's unit through the public setter (same object), recalculate, read again
+    for _ in range(ctx.n(120, 2000)):
+        h = ul.rand_history(rng)
+        t, idx, new = ul.gen_setunit(rng, h, ul.named_leafgen(h))
+        style = ul.rand_style(rng, 0.6)
+        try:
+            obs = ul.run_setunit(h, t, idx, new, style=style)
+        except ul.CaseInvalid:
+            continue
+        case = {"history": h, "tree": t, "idx": idx, "new": new, "style": style}
+        if obs.get("exc") == "crash":
+            res.evaluations += 1
+            res.disagreements.append({"name": "the implementation raised {} where the model returns".format(obs["what"]),
+                                      "kind": "tree", "case": case})
+            continue
+        if not obs["exact"]:
+            res.count("skipped:inexact-float-exponent")
+            continue
+        res.evaluations += 1
+        res.count("set-unit-then-recalculate")
+        nt = ul.replace_leaf(t, idx, new)
+        shown = ul.shown_items(obs, False)
+
+        def mk(enc, h=h, nt=nt, obs=obs, shown=shown):
+            return "({}, {}, {}, {}, false)".format(enc.history(h), enc.tree(nt), enc.obs(obs), enc.opt_umap(shown))
+        entries.append((mk, {"kind": "tree", "case": case}))
     # recalculate() after the definitions changed
     rec_entries = []
     for _ in range(ctx.n(150, 1500)):
@@ -227,10 +261,16 @@ def correspondence(ctx):
         sessions.append(ul.gen_session(rng))
     se_entries = []
     for steps in sessions:
+        style = ul.rand_style(rng, 0.6)
         try:
-            obs = ul.run_session(steps)
+            obs = ul.run_session(steps, style)
         except ul.CaseInvalid:
             res.count("skipped:unit-string-not-parsed-as-intended")
+            continue
+        if any(o.get("exc") == "crash" for o in obs):
+            res.evaluations += len(obs)
+            res.disagreements.append({"name": "the implementation raised {} where the model returns".format(
+                [o["what"] for o in obs if o.get("exc") == "crash"][0]), "kind": "session", "case": {"steps": steps, "style": style}})
             continue
         if not all(o["exact"] for o in obs):
             res.count("skipped:inexact-float-exponent")
@@ -248,7 +288,7 @@ def correspondence(ctx):
 
         def mk(enc, steps=steps, obs=obs, showns=showns):
             return enc.session(steps, obs, showns)
-        se_entries.append((mk, {"kind": "session", "case": {"steps": steps}}))
+        se_entries.append((mk, {"kind": "session", "case": {"steps": steps, "style": style}}))
     df_entries = []
     for _ in range(ctx.n(100, 1000)):
         h = ul.rand_history(rng, malformed=rng.random() < 0.3)
@@ -298,8 +338,16 @@ def correspondence(ctx):
 # ---- oracle ----------------------------------------------------------------------------------------------
 def check_case(case):
     if "steps" in case:
-        return ul.oracle_session(case["steps"])
-    why = ul.oracle_check(case.get("history", []), case["tree"], case.get("frac", False))
+        # define / clear / use steps executed in ONE fresh library state (run_session starts with core.fresh_impl())
+        return ul.oracle_session(case["steps"], case.get("style"))
+    if "session" in case:
+        # several (history, tree) cases evaluated one after the other in ONE fresh library state; the last one is judged
+        core.fresh_impl()
+        why = None
+        for c in case["session"]:
+            why = check_case(c)
+        return "after {} earlier operation(s) in the same interpreter: {}".format(len(case["session"]) - 1, why) if why else None
+    why = ul.check_one(case)
     if why:
         return why
     if case.get("clear"):
@@ -307,15 +355,31 @@ def check_case(case):
     return None
 
 
-def report(case, why):
+def fails_alone(case):
+    core.fresh_impl()
+    return check_case(case) is not None
+
+
+def report(case, why, journal=()):
     if "steps" in case:
-        small = {"steps": ul.shrink_session(case["steps"])}
+        small = dict(case, steps=ul.shrink_session(case["steps"], case.get("style")))      # every candidate starts from a fresh library state
         return Violation(ID, "session", small, check_case(small) or why)
+    if not fails_alone(case):
+        # fine on its own: it fails because of what ran before it in this process -> the earlier cases become part of the input
+        if check_case({"session": list(journal) + [case]}) is None:
+            return Violation(ID, "tree", case, why + " (only after the cases of this run, not reproduced from a fresh library state)")
+        prefix = core.minimize_session(list(journal), lambda p: check_case({"session": p + [case]}) is not None)
+        sess = {"session": prefix + [case]}
+        return Violation(ID, "tree", sess, check_case(sess) or why)
+
+    if "idx" in case:
+        return Violation(ID, "tree", case, why)
 
     def fails(h, t):
-        return check_case(dict(case, history=h, tree=t)) is not None
+        return fails_alone(dict(case, history=h, tree=t))
     h, t = ul.shrink_case(case.get("history", []), case["tree"], fails)
     small = dict(case, history=h, tree=t)
+    core.fresh_impl()
     return Violation(ID, "tree", small, check_case(small) or why)
 
 
@@ -327,19 +391,22 @@ def search(ctx, suspects, budget):
     for s in suspects:
         c = s.get("case")
         if c and s.get("kind") in ("tree", "recalc"):
-            todo.append({"history": c.get("history", []), "tree": c["tree"], "frac": c.get("frac", False)})
+            todo.append(dict(c) if "idx" in c else {"history": c.get("history", []), "tree": c["tree"], "frac": c.get("frac", False),
+                                                     "style": c.get("style")})
         elif c and s.get("kind") == "operate" and len(c.get("args", [])) in (1, 2) and c["op"] in ul.UN_OPS + ul.BIN_OPS:
             t = [("un" if len(c["args"]) == 1 else "bin"), c["op"]] + [ul.leaf(a) for a in c["args"]]
             todo.append({"history": c.get("history", []), "tree": t, "frac": False})
         elif c and s.get("kind") == "session":
-            todo.append({"steps": c["steps"]})
-    todo += [c["case"] for c in ul.load_corpus(ID) if c.get("kind") in ("tree", "session")]
+            todo.append({"steps": c["steps"], "style": c.get("style")})
+    todo += [c["case"] for c in ul.load_corpus(ID) if c.get("kind") in ("tree", "session")]    # incl. {"session": [...]} journals
     todo += [{"steps": st} for st in ul.session_templates()]
     scope = small_scope_cases()
     stride = max(1, len(scope) // ctx.n(1200, 6000))
     todo += [{"history": h, "tree": t, "frac": False, "clear": i % 7 == 0} for i, (h, t) in enumerate(scope[::stride])]
     n = 0
     n_sessions = 0
+    core.fresh_impl()
+    journal = []          # the (history, tree) cases judged since the library was last imported afresh
     while len(out) < 3:
         if todo:
             case = todo.pop(0)
@@ -347,18 +414,32 @@ def search(ctx, suspects, budget):
         elif time.time() - t0 > budget:
             break
         elif rng.random() < 0.35:
-            case = {"steps": ul.gen_session(rng)}
+            case = {"steps": ul.gen_session(rng), "style": ul.rand_style(rng, 0.6)}
             n_sessions += 1
+        elif rng.random() < 0.08:
+            h = ul.rand_history(rng)
+            t, idx, new = ul.gen_setunit(rng, h, ul.named_leafgen(h))
+            case = {"history": h, "tree": t, "idx": idx, "new": new, "style": ul.rand_style(rng, 0.6)}
         else:
             h, t = gen_tree_case(rng)
-            case = {"history": h, "tree": t, "frac": rng.random() < 0.08, "clear": rng.random() < 0.15}
+            case = {"history": h, "tree": t, "frac": rng.random() < 0.08, "clear": rng.random() < 0.15,
+                    "style": ul.rand_style(rng, 0.6)}
         n += 1
         why = check_case(case)
+        own_state = "steps" in case or "session" in case     # these start from a fresh library state themselves
         if why:
-            v = report(case, why)
+            v = report(case, why, journal) if not "session" in case else Violation(ID, "tree", case, why)
             if v.key not in seen:
                 seen.add(v.key)
                 out.append(v)
+        if why or own_state:
+            core.fresh_impl()      # nothing a session (or a report) left behind may leak into the next cases
+            journal = []
+        else:
+            journal.append(case)
+            if len(journal) > 400:
+                core.fresh_impl()
+                journal = []
     ul.reset_state()
     ctx.notes.append("oracle: {} cases checked against an independent Fraction expansion, of which {} define/clear/use "
                      "sessions (every use judged under the definitions in force at that step)".format(n, n_sessions))
